@@ -14,3 +14,5 @@ import Photon.Properties.C01
 import Photon.Properties.C02
 import Photon.Properties.C03
 import Photon.Properties.C06
+import Photon.Model.Chan
+import Photon.Properties.C09
